@@ -185,3 +185,96 @@ def option_field(chdt, byte, bit, size):
     if byte >= len(chdt):
         raise FormatError("options record too short for byte %d" % byte)
     return (chdt[byte] // (2**bit)) % (2**size)
+
+
+# ------------------------------------------------------------------------------------------
+# REF-ENC
+
+
+def enc_module(mtype, name="m", flags=0x49, cvals=(), chunks=(), chnk=None, in_project=False, x=0, y=0, layer=0, links=None, link_slots=None,
+               finetune=0, relative_note=0, scale=256, color=(255, 255, 255), visualization=0x000C0101, midi_in=0, midi_out_channel=0,
+               midi_out_bank=-1, midi_out_program=-1, cmid=None, extra_before_cvals=()):
+    """documented module section (without the SEND terminator); values may be symbolic"""
+    nb = list(name.encode("utf8"))[:32]
+    out = [ck(b"SFFF", u32(flags)), ck(b"SNAM", nb + [0] * (32 - len(nb)))]
+    if mtype is not None:
+        out.append(ck(b"STYP", list(mtype.encode("utf8")) + [0]))
+    out += [ck(b"SFIN", s32(finetune)), ck(b"SREL", s32(relative_note))]
+    if in_project:
+        out += [ck(b"SXXX", s32(x)), ck(b"SYYY", s32(y)), ck(b"SZZZ", s32(layer))]
+    out.append(ck(b"SSCL", u32(scale)))
+    if in_project:
+        out.append(ck(b"SVPR", u32(visualization)))
+    out += [ck(b"SCOL", list(color)), ck(b"SMII", u32(midi_in)), ck(b"SMIC", u32(midi_out_channel)), ck(b"SMIB", s32(midi_out_bank)), ck(b"SMIP", s32(midi_out_program))]
+    if in_project:
+        out.append(ck(b"SLNK", cat(s32(l) for l in (links or []))))
+        if link_slots is not None:
+            out.append(ck(b"SLnK", cat(s32(l) for l in link_slots)))
+    out += list(extra_before_cvals)
+    for v in cvals:
+        out.append(ck(b"CVAL", u32(v)))
+    if cmid is not None:
+        out.append(ck(b"CMID", cmid))
+    elif len(cvals):
+        out.append(ck(b"CMID", [0, 0, 0, 0, 0, 0, 0, 0xFF] * len(cvals)))
+    if chunks or chnk is not None:
+        out.append(ck(b"CHNK", u32(chnk if chnk is not None else (max(c[0] for c in chunks) + 1))))
+        for c in chunks:
+            out.append(ck(b"CHNM", u32(c[0])))
+            out.append(ck(b"CHDT", c[1]))
+            if len(c) > 2 and c[2] is not None:
+                out.append(ck(b"CHFF", u32(c[2])))
+            if len(c) > 3 and c[3] is not None:
+                out.append(ck(b"CHFR", u32(c[3])))
+    return out
+
+
+def enc_synth(mtype, version=(2, 1, 2, 1), **kw):
+    return cat([ck(b"SSYN"), ck(b"VERS", list(reversed(version)))] + enc_module(mtype, **kw) + [ck(b"SEND")])
+
+
+def enc_options(layout, values, nbytes=None):
+    """options CHDT from the YAML layout [(name, byte, bit, size, inverted)] and {name: logical value}"""
+    n = nbytes if nbytes is not None else max(l[1] for l in layout) + 1
+    rec = [0] * n
+    for name, byte, bit, size, inverted in layout:
+        v = values[name]
+        if size == 1:
+            v = (0 if v else 1) if inverted else (1 if v else 0)
+        rec[byte] = rec[byte] + v * (2**bit)
+    return rec
+
+
+def sampler_record(max_sample=0, note_map=None, legacy_map=None, vol_points=None, pan_points=None, nvol=0, npan=0,
+                   vol_sus=0, vol_ls=0, vol_le=0, pan_sus=0, pan_ls=0, pan_le=0, vol_flags=0, pan_flags=0,
+                   vib_type=0, vib_attack=0, vib_depth=0, vib_rate=0, fadeout=0, const_f4=(0x40, 0, 0x80, 0, 0, 0, 0, 0),
+                   sign=b"PMAS", version=4, tail=(6, 0, 0), name=b"", with_tail=True):
+    """Sampler global configuration record (docs: 'Sampler global configuration (CHNM 0)', 0x184
+    bytes) followed, when with_tail, by the three 32-bit fields current SunVox appends
+    (max version, editor cursor, editor selected size): 400 bytes in all."""
+    rec = [0] * 0x184
+    nm = list(name)[:22]
+    rec[4:4 + len(nm)] = nm
+    rec[0x1c:0x20] = u32(max_sample)
+    lm = list(legacy_map if legacy_map is not None else [0] * 96)
+    rec[0x24:0x24 + 96] = lm
+    vp = list(vol_points if vol_points is not None else [0] * 24)
+    pp = list(pan_points if pan_points is not None else [0] * 24)
+    o = 0x84
+    for v in vp:
+        rec[o:o + 2] = u16(v)
+        o += 2
+    for v in pp:
+        rec[o:o + 2] = u16(v)
+        o += 2
+    rec[0xe4:0xee] = [nvol, npan, vol_sus, vol_ls, vol_le, pan_sus, pan_ls, pan_le, vol_flags, pan_flags]
+    rec[0xee:0xf2] = [vib_type, vib_attack, vib_depth, vib_rate]
+    rec[0xf2:0xf4] = u16(fadeout)
+    rec[0xf4:0xfc] = list(const_f4)
+    rec[0xfc:0x100] = list(sign)
+    rec[0x100:0x104] = u32(version)
+    nmap = list(note_map if note_map is not None else [0] * 119)
+    rec[0x104:0x104 + 119] = nmap
+    if with_tail:
+        rec += u32(tail[0]) + s32(tail[1]) + s32(tail[2])
+    return rec
